@@ -41,7 +41,8 @@ CRASH_RULE = ("cases = generated API histories (as for C01..C12); the parent run
               "the new state once the call had returned) and the follow-up commit must yield the reference root.")
 
 
-NOMT_MODEL = "/verif/lean/.lake/build/bin/nomt_model"
+import os as _os0
+NOMT_MODEL = _os0.path.join(_os0.path.dirname(_os0.path.dirname(_os0.path.abspath(__file__))), "lean", ".lake", "build", "bin", "nomt_model")  # the driver of THIS tree (worktrees have their own)
 
 
 def CRASH(mode, focus, q, t, steps=2, shards_q=4, big=False, nops=8, segsize=0, wal=False):
@@ -76,7 +77,7 @@ ALLOC_RULE = (" Allocator runs: alloc-freelist builds well-shaped free lists wit
 # Lean image monitor by the harness itself (`--image-driver`), with the state the API reported as the expected map
 def _with_driver(run):
     r = dict(run)
-    r["args"] = list(run["args"]) + ["--image-driver", "/verif/lean/.lake/build/bin/nomt_model"]
+    r["args"] = list(run["args"]) + ["--image-driver", NOMT_MODEL]
     return r
 CRASH_IMAGES = [_with_driver(dict(CRASH("crash", "script-elision-threshold", 1, 1, steps=12, shards_q=1), fixed_seed=1, corpus=True, shards={"quick": 1, "thorough": 1}, cases={"quick": 1, "thorough": 1})),
                 # F20: one commit empties a first-layer slot of a stored page and fills its sibling (the emptied slot must be in the WAL diff)
